@@ -7,7 +7,7 @@ ID = "C15"
 LEAN_MODULES = ["LhasaV.Props.C15"]
 VH_FEATURES = ["reader"]
 PER_OP_SECONDS = 30
-THEOREMS = {"next_after_eof": "full: the end state is absorbing for next"}
+THEOREMS = {'end_sticky': 'full', 'basic_end_sticky': 'full', 'no_dangling_header': 'full: every history', 'headers_kind_independent': 'full', '(headers/bytes independent of treatment of other members)': 'partial: evaluated on the C by treatment groups; model theorem not yet stated', '(threads)': 'not modelled: read-only-globals run + interleaved readers'}
 TRUSTED = ["hand-written reader / basic reader / stream models (LhasaV.Model.{Reader,Stream}), tied to the C by the differential run",
            "harness: two readers in one process share only the library code (and the allocator); interleaving by script"]
 ASSUMPTIONS = ["at most one decode operation per member and one extract per entry",
